@@ -45,8 +45,18 @@ struct Canary {
     }
 };
 
+// two functions of the same type: successive cases of one process hand different ones to start()
+static int expectedFn = 0;
 static void plainFunction(int &arg) {
     ++sh->invoked;
+    if (expectedFn != 1) oracle_fail("C20: the function that runs is not the one that was handed to start()");
+    sh->argSeen = arg;
+    vs::point(TAG_IN_CALLABLE);
+    ++sh->returned;
+}
+static void otherFunction(int &arg) {
+    ++sh->invoked;
+    if (expectedFn != 2) oracle_fail("C20: the function that runs is not the one that was handed to start()");
     sh->argSeen = arg;
     vs::point(TAG_IN_CALLABLE);
     ++sh->returned;
@@ -86,7 +96,7 @@ static void starterMain() {
     switch (kind) {
     case 0: startWith<Canary<8>>(t, arg); break;
     case 1: startWith<Canary<256>>(t, arg); break;
-    case 2: t.start(&plainFunction, arg); break;
+    case 2: expectedFn = expectedFn == 1 ? 2 : 1; if (expectedFn == 1) t.start(&plainFunction, arg); else t.start(&otherFunction, arg); break;
     default: t.start(new Job()); break;
     }
     if (!t.isJoinable()) oracle_fail("C20: after start() the Thread is not joinable");
